@@ -773,22 +773,21 @@ func ruleC08ErrorToken(p *Program, r *Run) {
 			}
 			fn := FuncName(pkg, fd)
 			r.Saw(fn)
-			// allowed: only to choose an error message (Parse's trailing token, formatToken)
-			ok2 := fd.Name.Name == "formatToken"
-			if fd.Name.Name == "Parse" {
-				// both branches of the enclosing if record an error
-				if ifs, isIf := p.Parent(b).(*ast.IfStmt); isIf && ifs.Else != nil {
-					lits := 0
-					ast.Inspect(ifs, func(m ast.Node) bool {
-						if cl, ok := m.(*ast.CompositeLit); ok && TypeStr(info.TypeOf(cl)) == "parser.parseError" {
-							lits++
-						}
-						return true
-					})
-					ok2 = lits >= 2
-				}
+			// allowed: only to choose the wording of an error. For a function that returns a string (formatToken) that is
+			// all it can do; otherwise every path on which a token is known to be the error token must construct a
+			// parse error while that is known (path facts), before the token goes out of scope or the function returns.
+			ok2 := false
+			why := ""
+			if res := fd.Type.Results; res != nil && len(res.List) == 1 && TypeStr(info.TypeOf(res.List[0].Type)) == "string" {
+				ok2 = true
+			} else {
+				ec := &errTokClient{p: p, errKind: constKey(p.Parser.Types.Scope().Lookup("TokenError").(*types.Const).Val())}
+				eng := NewEngine(p, pkg, fd, ec)
+				eng.Run(nil)
+				ok2 = ec.seen > 0 && ec.bad == "" && len(eng.Errs) == 0
+				why = ec.bad
 			}
-			r.Check(ok2, "C08/errortoken", fmt.Sprintf("%s comparison with TokenError", fn), p.Pos(b.Pos()), "only selects the wording of an error", "a production tests for the lexer's error token: scan errors must never be accepted as part of a construct")
+			r.Check(ok2, "C08/errortoken", fmt.Sprintf("%s comparison with TokenError", fn), p.Pos(b.Pos()), "only selects the wording of an error: a parse error is constructed on every path where the token is known to be an error token", "a production tests for the lexer's error token: scan errors must never be accepted as part of a construct"+why)
 			return true
 		})
 	}
@@ -820,4 +819,88 @@ func ruleC08ErrorToken(p *Program, r *Run) {
 	})
 	r.Check(okEOF, "C08/errortoken", "parser.(*parser).next end of range", p.Pos(nx.Pos()), "reading past the end yields a TokenError token, which no production accepts", "reading past the end of the token range does not yield an error token: productions could accept it")
 	r.Floor("C08/errortoken", 3)
+}
+
+// errTokClient: wherever a token is known to be the lexer's error token, a parse error is constructed while that
+// is known.
+type errTokClient struct {
+	BaseClient
+	p       *Program
+	errKind string
+	seen    int
+	bad     string
+}
+
+func (c *errTokClient) errTokKeys(st *State) []string {
+	var out []string
+	for _, k := range st.Keys() {
+		if strings.HasSuffix(k, ".Kind") && !strings.HasPrefix(k, "val:") {
+			if f := st.Get(k); f != nil && f.HasEq && f.Eq == c.errKind {
+				out = append(out, k)
+			}
+		}
+	}
+	return out
+}
+
+func (c *errTokClient) Visit(e *Engine, st *State, n ast.Node) *State {
+	cl, ok := n.(*ast.CompositeLit)
+	if !ok || TypeStr(e.Info.TypeOf(cl)) != "parser.parseError" {
+		return nil
+	}
+	if len(c.errTokKeys(st)) > 0 || st.Ext("errtok:pending") == "1" {
+		if e.Reporting() {
+			c.seen++
+		}
+		return st.WithExt("errtok:reported", "1").WithExt("errtok:pending", "")
+	}
+	return nil
+}
+
+// Stmt: once a token is known to be the error token, a parse error must be constructed before that knowledge is
+// gone (the token variable reassigned, out of scope, the iteration or the function over).
+func (c *errTokClient) Stmt(e *Engine, st *State, s ast.Stmt) *State {
+	known := len(c.errTokKeys(st)) > 0
+	switch {
+	case known && st.Ext("errtok:reported") != "1" && st.Ext("errtok:pending") != "1":
+		return st.WithExt("errtok:pending", "1")
+	case !known && st.Ext("errtok:pending") == "1":
+		if e.Reporting() {
+			c.bad = " (a token known to be an error token is dropped at " + e.P.Pos(s.Pos()) + " without a parse error having been constructed)"
+		}
+		return st.WithExt("errtok:pending", "")
+	}
+	return nil
+}
+
+func (c *errTokClient) end(e *Engine, st *State, where string) {
+	if !e.Reporting() {
+		return
+	}
+	if (len(c.errTokKeys(st)) > 0 || st.Ext("errtok:pending") == "1") && st.Ext("errtok:reported") != "1" {
+		c.bad = " (a token is known to be an error token at " + where + " and no parse error was constructed)"
+	}
+}
+
+func (c *errTokClient) Return(e *Engine, st *State, ret *ast.ReturnStmt) {
+	if e.Lit != nil {
+		return
+	}
+	where := "the end of the function"
+	if ret != nil {
+		where = "the return at " + e.P.Pos(ret.Pos())
+	}
+	c.end(e, st, where)
+}
+
+func (c *errTokClient) LoopBack(e *Engine, st *State, loop ast.Stmt) {
+	c.end(e, st, "the end of an iteration of the loop at "+e.P.Pos(loop.Pos()))
+}
+
+// LoopHead: a new iteration starts without a report
+func (c *errTokClient) LoopHead(e *Engine, st *State, _ ast.Stmt) *State {
+	if st.Ext("errtok:reported") != "" || st.Ext("errtok:pending") != "" {
+		return st.WithExt("errtok:reported", "").WithExt("errtok:pending", "")
+	}
+	return nil
 }
